@@ -190,6 +190,8 @@ def check(ctx, build=None):
         #      definition mentions only definitions above it (never itself as a global).
         import c07
         probes = dict(("panic-site:" + k, v) for k, v in c07.PROBES.items())
+        probes["blank-and-init-declarations"] = ("func init() {\n}\n\nfunc init() {\n\tKeep()\n}\n\nfunc _() {\n}\n\nfunc _() uint64 {\n\treturn 1\n}\n\nvar _ uint64 = 3\n\nvar _ = uint64(4)\n\n"
+                                                 "func Keep() uint64 {\n\treturn 2\n}\n")
         probes["method-value-before-method"] = ("type MV struct {\n\tv uint64\n}\n\nfunc UseMV(s MV) uint64 {\n\tg := s.Late\n\treturn g()\n}\n\n"
                                                 "func CallsDirect(s MV) uint64 {\n\treturn s.Late() + 1\n}\n\nfunc (s MV) Late() uint64 {\n\treturn s.v\n}\n")
         probes["interface-argument-in-recursion"] = ("type Shape interface {\n\tArea() uint64\n}\n\ntype Sq struct {\n\tside uint64\n}\n\nfunc (s Sq) Area() uint64 {\n\treturn s.side\n}\n\n"
@@ -210,6 +212,10 @@ def check(ctx, build=None):
             order = reps[1][6:].split(",") if reps[1] != "names -" else []
             funcs = re.findall(r"^func (\w+)\(", psrc, re.M)
             funcs = [f for f in funcs if f not in ("_", "init")]
+            twice = sorted({n for n in order if order.count(n) > 1})
+            if twice or "_" in order:
+                viol("C04: goose accepts the package, but several definitions share one name (or are named `_`)",
+                     {"proto": "c04-probe", "probe": pid, "source": "package p\n\n" + psrc}, "distinct declarations yield distinct definitions", {"defined_more_than_once": twice, "definitions": order})
             missing = [f for f in funcs if order.count(f) != 1]
             if missing:
                 viol("C04: goose accepts the package, but a top-level function has no definition (or more than one)",
